@@ -187,7 +187,7 @@ def main():
     claimed = [x["property_id"] for x in json.load(open("/verif/MANIFEST.json"))["checks"]]
     for a in args:
         pid, _, ks = a.partition(":")
-        for k in ([int(ks)] if ks else [1, 2, 3]):
+        for k in ([int(ks)] if ks else ([1, 2, 3, 4] if pid.startswith("X") else [1, 2, 3])):
             checks = checks_override or [c for c in RELATED.get(pid, claimed if pid.startswith("X") else [pid]) if c in claimed]
             m = eval_seed(pid, k, checks)
             out = f"/verif/seeded/{pid}-{TAG}{k}"
